@@ -27,6 +27,11 @@ class Stage:
 
 def parse(t: T, cond=()) -> Tuple[T, List[Stage]]:
     """Return (source term, stages applied to it in order)."""
+    if t.op == "call" and t.a[0] == T("global", ("itertools.filterfalse",)) and len(t.a[1]) == 2 and not t.a[2]:
+        # filterfalse(p, it) keeps the elements for which p is false: a filter stage with the negated predicate
+        base, stages = parse(t.a[1][1], cond)
+        stages.append(Stage("filter", T("neg-pred", (t.a[1][0],)), tuple(cond)))
+        return base, stages
     if t.op == "call" and t.a[0] in (FILTER, MAP) and len(t.a[1]) == 2 and not t.a[2]:
         base, stages = parse(t.a[1][1], cond)
         stages.append(Stage("filter" if t.a[0] == FILTER else "map", t.a[1][0], tuple(cond)))
@@ -147,6 +152,10 @@ def normalise(t: T, bound_name: str = "x") -> T:
             return unit
         return flat[0] if len(flat) == 1 else T("bool", (op, tuple(flat)))
 
+    def boolish(x: T) -> bool:
+        return x.op in ("cmp", "bool", "not", "exists") or x in (TRUE, FALSE) or \
+            (x.op == "call" and x.a[0].op == "builtin" and x.a[0].a[0] in ("isinstance", "any", "all", "bool", "callable"))
+
     def tidy(x: T) -> T:
         """Boolean-valued conditionals become and/or; a disjunct is simplified knowing the other disjuncts are false
         (`A or (B and not A)` is `A or B`), a conjunct knowing the others are true."""
@@ -162,6 +171,9 @@ def normalise(t: T, bound_name: str = "x") -> T:
                 return tidy(mk("or", [negate(c), a]))
             if b == FALSE:
                 return tidy(mk("and", [c, a]))
+            if boolish(a) and boolish(b):
+                # (a if c else b) on truth values  ==  (c and a) or (not c and b)
+                return tidy(mk("or", [mk("and", [c, a]), mk("and", [negate(c), b])]))
             return T("ite", (c, a, b))
         if x.op == "not" and x.a[0].op == "ite":
             inner = tidy(x.a[0])
@@ -178,8 +190,11 @@ def normalise(t: T, bound_name: str = "x") -> T:
                     if it.op == "bool" and it.a[0] == dual:
                         sub = list(it.a[1])
                         # inside `or`: the other disjuncts are false; inside `and`: the other conjuncts are true
-                        keep = [d for d in sub if not any(d == (negate(o) if op == "or" else o) for o in others)]
-                        if any(d == (o if op == "or" else negate(o)) for d in sub for o in others):
+                        # or-context: a conjunct equal to the negation of another disjunct is true (drop it), one equal to
+                        # another disjunct is false (the whole conjunction is false).  and-context: a disjunct equal to the
+                        # negation of another conjunct is false (drop it), one equal to another conjunct is true.
+                        keep = [d for d in sub if not any(d == negate(o) for o in others)]
+                        if any(d == o for d in sub for o in others):
                             new = FALSE if op == "or" else TRUE
                         else:
                             new = mk(dual, keep) if len(keep) != len(sub) else it
@@ -233,7 +248,56 @@ def predicate_body(fn: T) -> Optional[T]:
         return fn.a[1]
     if fn.op == "comp-pred":
         return fn.a[1]
+    if fn.op == "neg-pred":
+        inner = predicate_body(fn.a[0])
+        return None if inner is None else T("not", (inner,))
     return None
+
+
+def resolve_predicate(repo, interp, ci, fn: T, effects_out: Optional[list] = None) -> Optional[T]:
+    """Like predicate_body, but also resolves predicates given by name: a bound method of the facade, a module-level
+    function, functools.partial over either (leading arguments fixed), and the negation used by filterfalse.  The element
+    is ('bound', 'elem', 0).  Effects of a named predicate's body are appended to effects_out."""
+    body = predicate_body(fn)
+    if body is not None:
+        return body
+    X = T("bound", ("elem", 0))
+    if fn.op == "neg-pred":
+        inner = resolve_predicate(repo, interp, ci, fn.a[0], effects_out)
+        return None if inner is None else T("not", (inner,))
+    fixed: tuple = ()
+    fixed_kw: tuple = ()
+    if fn.op == "call" and fn.a[0] == T("global", ("functools.partial",)) and fn.a[1]:
+        fixed, fixed_kw, fn = tuple(fn.a[1][1:]), tuple(fn.a[2]), fn.a[1][0]
+    SELF = param("self")
+    target = None
+    if fn.op == "attr" and fn.a[0] == SELF and ci is not None and fn.a[1] in ci.methods:
+        target = (ci.module, ci.methods[fn.a[1]], ci, 1)
+    elif fn.op == "func":
+        found = repo.lookup(fn.a[0])
+        if found and found[0] == "func":
+            target = (found[1], found[2], None, 0)
+    elif fn.op == "lambda" and len(fn.a) == 1:
+        return None
+    if target is None:
+        return None
+    mod, fnode, cls, skip = target
+    names = [a.arg for a in fnode.args.args][skip:]
+    bind = {}
+    for nme, v in zip(names, fixed):
+        bind[nme] = v
+    rest = [n for n in names[len(fixed):] if n not in dict(fixed_kw)]
+    for k, v in fixed_kw:
+        bind[k] = v
+    if len(rest) != 1:
+        return None
+    bind[rest[0]] = X
+    rec = interp.run(mod, fnode, bind, self_cls=cls)
+    if rec.notes:
+        return None
+    if effects_out is not None:
+        effects_out.extend(rec.effects)
+    return rec.return_term()
 
 
 def in_language(t: T) -> bool:
